@@ -22,7 +22,7 @@ func (e *Env) DefineValue(symbol string, value reflect.Value) error {
 	if strings.Contains(symbol, ".") {
 		return ErrSymbolContainsDot
 	}
-	if !value.IsValid() {
+	if !value.IsValid() || !value.CanInterface() {
 		return ErrInvalidValue
 	}
 	e.rwMutex.Lock()
@@ -64,7 +64,7 @@ func (e *Env) Set(symbol string, value interface{}) error {
 
 // SetValue reflect value to the scope where symbol is first found.
 func (e *Env) SetValue(symbol string, value reflect.Value) error {
-	if !value.IsValid() {
+	if !value.IsValid() || !value.CanInterface() {
 		return ErrInvalidValue
 	}
 	e.rwMutex.Lock()
@@ -102,7 +102,7 @@ func (e *Env) GetValue(symbol string) (reflect.Value, error) {
 	if externalLookup != nil {
 		var err error
 		value, err = externalLookup.Get(symbol)
-		if err == nil {
+		if err == nil && value.IsValid() && value.CanInterface() {
 			return value, nil
 		}
 	}
